@@ -16,6 +16,10 @@ def mc_cfg(name, maxlen, alphabet, ops, slice_mode="char", emit=True):
     return path
 
 
+def ops_args(ops):
+    return {"OpsExtended": ["--ops", "extended"], "OpsOdd": ["--ops", "odd"]}.get(ops, [])
+
+
 def trace_cfg(name, ops):
     path = os.path.join(tlc.WORK, "TraceLexer-%s.cfg" % name)
     with open(path, "w") as f:
@@ -45,7 +49,7 @@ def model_and_replay(run, configs, pid_key):
             raise tlc.ToolError("Lexer/exh/%s printed no behaviours" % name)
         path = os.path.join(tlc.WORK, "lex-replay-%s.ndjson" % name)
         core.write_ndjson(path, recs)
-        out, _ = core.run_vh(["lex-replay", path] + (["--ops", "extended"] if ops == "OpsExtended" else []))
+        out, _ = core.run_vh(["lex-replay", path] + ops_args(ops))
         summ = [o for o in out if "summary" in o]
         if not summ or summ[0]["summary"]["replayed"] != len(recs):
             raise tlc.ToolError("lex-replay did not process every record (%s)" % name)
@@ -123,7 +127,7 @@ def histories(run, maxlen, pid_key, alphabet="A4"):
 def trace_validate(run, n, maxlen, seed, ops, pid_key, shards=16):
     """Leg T: random UTF-8 inputs tokenized by the real code, each execution validated by TLC against the Lexer machine."""
     path = os.path.join(tlc.WORK, "lex-trace-%s.ndjson" % ops)
-    core.run_vh(["lex-record", "--seed", seed, "--n", n, "--maxlen", maxlen, "--out", path] + (["--ops", "extended"] if ops == "OpsExtended" else []))
+    core.run_vh(["lex-record", "--seed", seed, "--n", n, "--maxlen", maxlen, "--out", path] + ops_args(ops))
     recs = core.read_ndjson(path)
     parts, k = core.shard(recs, shards)
     files = []
@@ -223,7 +227,7 @@ def replay(path, seed):
     rec = payload["record"]
     p = os.path.join(tlc.WORK, "lex-replay-one.ndjson")
     core.write_ndjson(p, [rec])
-    out, _ = core.run_vh(["lex-replay", p] + (["--ops", "extended"] if payload.get("ops") == "OpsExtended" else []))
+    out, _ = core.run_vh(["lex-replay", p] + ops_args(payload.get("ops")))
     bad = [o for o in out if "mismatch" in o]
     print(json.dumps({"input": chars_str(rec["chars"]), "spec": rec, "mismatch": bad}, indent=1))
     return 1 if bad else 0
